@@ -278,6 +278,10 @@ func run(c *core.Case) {
 			rejected++
 		}
 	}
+	for _, pr := range tr.Probes {
+		c.Count("stale_read_probes", 1)
+		c.Count("stale_read_probe_outcomes(write-old/read-new/write-new/read-old)."+pr, 1)
+	}
 	changes := 0
 	for _, ls := range tr.Leaders {
 		changes += len(ls) - 1
@@ -296,7 +300,8 @@ func init() {
 		ID:    "C23",
 		Level: "exploration",
 		Rule: "case = one seeded run of the 3-store in-process cluster of C22 (same generator: 6 clients x 22-60 calls on 2 keys per region, 55-85% writes (one PREWRITE+COMMIT command with a unique value), the rest Store.ReadCommand GETs; " +
-			"15-40% of the calls go to a random store, so followers and isolated ex-leaders are addressed; seeded fault script of partitions, leader transfers, restarts, drop/dup/delay); " +
+			"15-40% of the calls go to a random store, so followers and isolated ex-leaders are addressed; seeded fault script of partitions, leader transfers, restarts, drop/dup/delay; every fifth case is the stale-leader-read flavour whose partitions carry a probe: a seventh client writes at the leader, the leader is cut off the moment the write is acknowledged, " +
+			"and as soon as another store claims leadership the probe reads there, writes there, and reads at the cut-off old leader); " +
 			"call/return events carry a logical clock; oracle = porcupine register linearizability per key (timed-out/errored proposals stay open, rejected or prewrite-failed proposals have no effect, only value/absent reads are constrained) " +
 			"plus reply classification (value/ack, NotLeader/EpochNotMatch, or error); non-trivial = values were served by >= 2 different stores, >= 1 NotLeader rejection and >= 1 leader change observed; distinct = distinct (leader sequence, executed fault list)",
 		Assumptions: []string{
